@@ -293,6 +293,24 @@ def zipAll : Nat → List M → Option (List (List Item))
     | .stop => some []
     | .row xs ms' => (zipAll f ms').map (xs :: ·)
 
+
+/-- at most `k` items of a generator: what a consumer sees that stops asking after `k` items (no pull `k+1`) -/
+def pullUpTo {σ : Type} (pull : σ → Step σ) : Nat → σ → Option (List Item)
+  | 0, _ => some []
+  | k + 1, s =>
+    match pull s with
+    | .error => none
+    | .done => some []
+    | .yield x s' => (pullUpTo pull k s').map (x :: ·)
+
+/-- the computation graph's evaluation of `get_mask()/get_track(..).get_data()` of a streamed array over `n` contigs:
+at every index the chromosome-name stream is pulled first, then the data stream, then the chromosome sizes
+(`ComputationNode._get_buffer` evaluates its arguments left to right and ends at the first `StopIteration`);
+the result is the data column of the completed rows -/
+def graphColumn (fuel n : Nat) (data : M) : Option (List Item) :=
+  (zipAll fuel [.plain (List.replicate n []), data, .plain (List.replicate n [])]).map
+    (fun rows => rows.map (fun r => r.getD 1 []))
+
 /-! ## specification -/
 
 /-- the items of the contig `n`: the (first) group carrying that name, or the empty table -/
